@@ -8,6 +8,7 @@
 #include <set>
 #include <thread>
 
+#include <pthread.h>
 #include <sys/wait.h>
 #include <unistd.h>
 
@@ -18,6 +19,19 @@
 #include <foonathan/memory/threading.hpp>
 
 #include "../vf/vf.hpp"
+
+#if FOONATHAN_MEMORY_TEMPORARY_STACK_MODE >= 2
+namespace foonathan
+{
+    namespace memory
+    {
+        namespace detail
+        {
+            extern void (*verif_yield_hook)(const char* tag); // guarded hook in src/temporary_allocator.cpp
+        }
+    } // namespace memory
+} // namespace foonathan
+#endif
 
 namespace fm = foonathan::memory;
 using vf::CaseInfo;
@@ -560,10 +574,11 @@ namespace
         T_exit,       // thread exits (joined)
         T_shrink,     // request shrink_to_fit on the innermost scope
         T_open_explicit, // scope on an explicit temporary_stack object
+        T_advance,       // let a thread that is stopped inside a list operation run to its next scheduling point
         T__count
     };
     const char* tnames[T__count] = {"start", "init_ctor", "get_stack", "open", "alloc", "close", "init_dtor",
-                                    "exit", "shrink", "open_explicit"};
+                                    "exit", "shrink", "open_explicit", "advance"};
 
     struct Scope
     {
@@ -579,19 +594,36 @@ namespace
         unsigned char                            tag = 0;
     };
 
-    // one actor = one OS thread executing commands posted by the scheduler (main thread of the child)
+    // one actor = one OS thread executing commands posted by the scheduler (main thread of the child).
+    // With the guarded yield hook installed an actor also stops at every scheduling point inside the
+    // library's stack-list operations; the scheduler decides who continues (one actor runs at a time).
+    struct Actor;
+    thread_local Actor* tl_actor = nullptr;
+
     struct Actor
     {
-        std::thread                thread;
+        pthread_t                  handle{};
+        bool                       has_thread = false;
         std::mutex                 m;
         std::condition_variable    cv;
         std::function<void()>      cmd;
-        bool                       has_cmd = false, done = false, quit = false, started = false, exited = false;
+        bool                       has_cmd = false, done = true, quit = false, started = false, exited = false;
+        bool                       yielded = false, resume_flag = false, yield_enabled = false, terminated = false;
+        const char*                last_tag = "";
         std::unique_ptr<fm::temporary_stack_initializer> init;
         std::vector<Scope>         scopes;
         const void*                holds = nullptr; // stack this thread currently holds (model)
+        bool                       acquiring = false;      // inside an operation that may acquire a stack
+        bool                       exit_requested = false; // no further steps are accepted
         unsigned                   shrinks_since = 0;
 
+        static void* entry(void* self)
+        {
+            auto* a  = static_cast<Actor*>(self);
+            tl_actor = a;
+            a->run_loop();
+            return nullptr; // thread-local destructors (the library's exit detector) run after this
+        }
         void run_loop()
         {
             for (;;)
@@ -609,7 +641,23 @@ namespace
                 cv.notify_all();
             }
         }
-        // executes f on this actor's thread and waits for it
+        // called on the actor's thread from inside the library
+        void yield_point(const char* tag)
+        {
+            std::unique_lock<std::mutex> l(m);
+            yielded  = true;
+            last_tag = tag;
+            cv.notify_all();
+            cv.wait(l, [&] { return resume_flag; });
+            resume_flag = false;
+            yielded     = false;
+        }
+        bool in_flight()
+        {
+            std::lock_guard<std::mutex> l(m);
+            return !done;
+        }
+        // posts f and waits until it finished or stopped at a scheduling point
         void exec(std::function<void()> f)
         {
             std::unique_lock<std::mutex> l(m);
@@ -617,9 +665,27 @@ namespace
             has_cmd = true;
             done    = false;
             cv.notify_all();
-            cv.wait(l, [&] { return done; });
+            cv.wait(l, [&] { return done || yielded; });
+        }
+        // lets a stopped actor run to its next scheduling point or to the end of its command
+        void resume()
+        {
+            std::unique_lock<std::mutex> l(m);
+            if (!yielded)
+                return;
+            resume_flag = true;
+            yielded     = false;
+            cv.notify_all();
+            cv.wait(l, [&] { return done || yielded; });
         }
     };
+
+    void yield_hook(const char* tag)
+    {
+        Actor* a = tl_actor;
+        if (a && a->yield_enabled)
+            a->yield_point(tag);
+    }
 
     struct C14
     {
@@ -631,30 +697,120 @@ namespace
         int                    last_actor = -1;
         bool                   mode1;
 
-        C14(Fail& f, unsigned n, bool m1) : fail(f), mode1(m1)
+        bool hooks = false;
+        C14(Fail& f, unsigned n, bool m1, bool with_hooks) : fail(f), mode1(m1), hooks(with_hooks)
         {
             for (unsigned i = 0; i < n; ++i)
                 actors.emplace_back(new Actor);
             actors[0]->started = true; // main
         }
 
+        unsigned n_inner_switches = 0; // scheduling decisions taken while an actor was inside a list operation
+        void drain(unsigned a)
+        {
+            Actor& A = *actors[a];
+            while (A.in_flight())
+                A.resume();
+        }
         void on(unsigned a, std::function<void()> f)
         {
             if (int(a) != last_actor)
+            {
                 ++n_switches;
+                for (auto& o : actors)
+                    if (o.get() != actors[a].get() && o->has_thread && !o->terminated && o->in_flight())
+                    {
+                        ++n_inner_switches;
+                        break;
+                    }
+            }
             last_actor = int(a);
             if (a == 0)
                 f();
             else
+            {
+                drain(a); // an actor finishes its previous step before it starts the next one
                 actors[a]->exec(std::move(f));
+            }
+        }
+        // one more segment of an actor that is stopped inside a library operation
+        void advance(unsigned a)
+        {
+            Actor& A = *actors[a];
+            if (a == 0 || !A.has_thread || A.terminated)
+                return;
+            if (A.in_flight())
+            {
+                if (int(a) != last_actor)
+                    ++n_inner_switches;
+                last_actor = int(a);
+                A.resume();
+            }
+            else if (A.exit_requested && !A.quit)
+            {
+                {
+                    std::lock_guard<std::mutex> l(A.m);
+                    A.quit = true;
+                    A.cv.notify_all();
+                }
+                join_step(a);
+            }
+            else if (A.quit)
+                join_step(a);
+        }
+        // thread exit is a sequence of scheduled steps too: the library's thread-exit detector
+        // runs (and stops at scheduling points) after the thread function returned
+        bool join_step(unsigned a)
+        {
+            Actor& A = *actors[a];
+            for (int spin = 0; spin < 20000; ++spin)
+            {
+                {
+                    std::unique_lock<std::mutex> l(A.m);
+                    if (A.yielded && spin > 0)
+                        return false; // stopped again inside the exit path
+                    if (A.yielded)
+                    {
+                        A.resume_flag = true;
+                        A.yielded     = false;
+                        A.cv.notify_all();
+                    }
+                }
+                timespec ts;
+                clock_gettime(CLOCK_REALTIME, &ts);
+                ts.tv_nsec += 200000;
+                if (ts.tv_nsec >= 1000000000)
+                {
+                    ts.tv_sec += 1;
+                    ts.tv_nsec -= 1000000000;
+                }
+                if (pthread_timedjoin_np(A.handle, nullptr, &ts) == 0)
+                {
+                    A.terminated = true;
+                    A.exited     = true;
+                    A.holds      = nullptr;
+                    return true;
+                }
+            }
+            return false;
         }
 
+        // threads that hold a stack or are inside an operation that may acquire one: a thread that
+        // found every existing stack taken when it looked creates a new one even if a stack is given
+        // back before it is done
         unsigned holding_threads() const
         {
             unsigned n = 0;
             for (auto& a : actors)
-                n += a->holds != nullptr;
+                n += a->holds != nullptr || a->acquiring;
             return n;
+        }
+        void begin_acquire(unsigned a)
+        {
+            actors[a]->acquiring = true;
+            unsigned h           = holding_threads();
+            if (h > peak_holding)
+                peak_holding = h;
         }
 
         // model: thread `a` uses stack s now
@@ -662,14 +818,16 @@ namespace
         {
             ++uses;
             for (unsigned o = 0; o < actors.size(); ++o)
-                if (o != a && actors[o]->holds == s && actors[o]->started && !actors[o]->exited)
+                if (o != a && actors[o]->holds == s && actors[o]->started && !actors[o]->exited
+                    && !actors[o]->quit) // a thread inside its exit path does not use its stack any more
                 {
                     fail("shared-stack", "thread " + std::to_string(a) + " uses the temporary stack that live thread "
                                              + std::to_string(o) + " still holds");
                     return;
                 }
-            actors[a]->holds = s;
-            bool fresh       = stacks_seen.insert(s).second;
+            actors[a]->holds     = s;
+            actors[a]->acquiring = false;
+            bool fresh           = stacks_seen.insert(s).second;
             unsigned h       = holding_threads();
             if (h > peak_holding)
                 peak_holding = h;
@@ -681,24 +839,32 @@ namespace
 
         bool usable(unsigned a)
         {
-            return a < actors.size() && actors[a]->started && !actors[a]->exited;
+            return a < actors.size() && actors[a]->started && !actors[a]->exited && !actors[a]->quit
+                   && !actors[a]->exit_requested;
         }
 
         void step(const Op& op)
         {
             unsigned a = op.a % actors.size();
             Actor&   A = *actors[a];
+            // an actor finishes the step it is in before its next one starts; the guards below must
+            // see the settled state (on() would drain anyway)
+            if (op.kind != T_advance && a != 0 && A.has_thread && !A.terminated && !A.quit && !A.exit_requested)
+                drain(a);
             switch (op.kind)
             {
             case T_start:
                 if (a == 0 || A.started)
                     return;
-                A.started = true;
-                A.thread  = std::thread([&A] { A.run_loop(); });
+                A.started       = true;
+                A.yield_enabled = hooks;
+                A.has_thread    = pthread_create(&A.handle, nullptr, &Actor::entry, &A) == 0;
                 if (mode1)
                     on(a,
-                       [&]
+                       [this, a, op]
                        {
+                           Actor& A = *actors[a];
+                           (void)A;
                            A.init.reset(new fm::temporary_stack_initializer());
                            use(a, &fm::get_temporary_stack());
                        });
@@ -706,9 +872,13 @@ namespace
             case T_init_ctor:
                 if (!usable(a) || A.init || mode1)
                     return;
+                if (op.b % 3 != 0)
+                    begin_acquire(a);
                 on(a,
-                   [&]
+                   [this, a, op]
                    {
+                       Actor& A = *actors[a];
+                       (void)A;
                        if (op.b % 3 == 0)
                            A.init.reset(new fm::temporary_stack_initializer(
                                fm::temporary_stack_initializer::defer_create));
@@ -724,9 +894,12 @@ namespace
             case T_get_stack:
                 if (!usable(a))
                     return;
+                begin_acquire(a);
                 on(a,
-                   [&]
+                   [this, a, op]
                    {
+                       Actor& A = *actors[a];
+                       (void)A;
                        auto& s = fm::get_temporary_stack();
                        use(a, &s);
                    });
@@ -735,9 +908,13 @@ namespace
             case T_open_explicit:
                 if (!usable(a) || A.scopes.size() >= 6)
                     return;
+                if (op.kind == T_open && (A.scopes.empty() || !A.scopes.front().own_stack))
+                    begin_acquire(a);
                 on(a,
-                   [&]
+                   [this, a, op]
                    {
+                       Actor& A = *actors[a];
+                       (void)A;
                        Scope sc;
                        sc.tag = static_cast<unsigned char>(17 * (a + 1) + A.scopes.size());
                        if (op.kind == T_open_explicit && A.scopes.empty())
@@ -764,8 +941,10 @@ namespace
                 if (!usable(a) || A.scopes.empty())
                     return;
                 on(a,
-                   [&]
+                   [this, a, op]
                    {
+                       Actor& A = *actors[a];
+                       (void)A;
                        static const size_t sizes[] = {1, 8, 24, 100, 256, 1000, 3000, 5000, 9000};
                        Scope&              sc = A.scopes.back();
                        size_t size = sizes[op.b % 9], align = size_t(1) << (op.c % 6);
@@ -809,8 +988,10 @@ namespace
                 if (!usable(a) || A.scopes.empty())
                     return;
                 on(a,
-                   [&]
+                   [this, a, op]
                    {
+                       Actor& A = *actors[a];
+                       (void)A;
                        A.scopes.back().alloc->shrink_to_fit();
                        A.scopes.back().shrink = true;
                    });
@@ -818,14 +999,16 @@ namespace
             case T_close:
                 if (!usable(a) || A.scopes.empty())
                     return;
-                on(a, [&] { close_scope(a); });
+                on(a, [this, a] { close_scope(a); });
                 return;
             case T_init_dtor:
                 if (!usable(a) || !A.init || !A.scopes.empty() || mode1)
                     return;
                 on(a,
-                   [&]
+                   [this, a, op]
                    {
+                       Actor& A = *actors[a];
+                       (void)A;
                        A.init.reset();
                        A.holds = nullptr; // the model: the stack is given up
                        ++n_init_dtor_before_use;
@@ -834,7 +1017,10 @@ namespace
             case T_exit:
                 if (a == 0 || !usable(a))
                     return;
-                finish_actor(a);
+                begin_exit(a);
+                return;
+            case T_advance:
+                advance(a);
                 return;
             default:
                 return;
@@ -883,30 +1069,64 @@ namespace
             sc.own_stack.reset();
         }
 
-        void finish_actor(unsigned a)
+        // begins the exit of thread a (its open scopes and initializer die first); with the yield hook
+        // the exit may stop at scheduling points and is completed by later advance steps or finish()
+        void begin_exit(unsigned a)
         {
             Actor& A = *actors[a];
+            if (A.quit || A.exit_requested)
+                return;
+            A.exit_requested = true;
             on(a,
-               [&]
+               [this, a]
                {
-                   while (!A.scopes.empty() && !fail.failed)
+                   Actor& B = *actors[a];
+                   while (!B.scopes.empty() && !fail.failed)
                        close_scope(a);
-                   A.init.reset();
+                   bool had_init = bool(B.init);
+                   B.init.reset();
+                   if (had_init)
+                       B.holds = nullptr; // destroying the initializer gives the stack up
+                   // (the thread keeps "holding" its stack until it has terminated: the library's
+                   // exit detector gives the stack back during thread exit)
                });
+            if (A.in_flight())
+                return; // stopped inside initializer destruction: the exit continues later
             {
                 std::lock_guard<std::mutex> l(A.m);
                 A.quit = true;
                 A.cv.notify_all();
             }
-            A.thread.join(); // thread-local destructors have run
-            A.exited = true;
-            A.holds  = nullptr;
+            join_step(a);
+        }
+        void finish_actor(unsigned a)
+        {
+            Actor& A = *actors[a];
+            for (int guard = 0; guard < 1000 && !A.terminated; ++guard)
+            {
+                drain(a);
+                if (!A.quit)
+                {
+                    if (!A.exit_requested)
+                        begin_exit(a);
+                    drain(a);
+                    if (!A.quit)
+                    {
+                        std::lock_guard<std::mutex> l(A.m);
+                        A.quit = true;
+                        A.cv.notify_all();
+                    }
+                }
+                join_step(a);
+            }
+            if (!A.terminated)
+                fail("thread-exit-stuck", "a thread did not terminate");
         }
 
         void finish()
         {
             for (unsigned a = 1; a < actors.size(); ++a)
-                if (usable(a))
+                if (actors[a]->has_thread && !actors[a]->terminated)
                     finish_actor(a);
             Actor& M = *actors[0];
             while (!M.scopes.empty() && !fail.failed)
@@ -948,7 +1168,11 @@ namespace
             F         = &f;
             try
             {
-                C14 c(f, nthreads, mode1);
+                bool hooks = !mode1 && nthreads > 1 && P(1) % 3 != 0;
+#if FOONATHAN_MEMORY_TEMPORARY_STACK_MODE >= 2
+                fm::detail::verif_yield_hook = hooks ? yield_hook : nullptr;
+#endif
+                C14 c(f, nthreads, mode1, hooks);
                 if (mode1)
                     c.actors[0]->init.reset(new fm::temporary_stack_initializer());
                 for (auto& op : p.ops)
@@ -965,9 +1189,9 @@ namespace
                     n = std::snprintf(buf, sizeof buf, "FAIL %s\nMSG %s\n", f.v.signature.c_str(), f.v.message.c_str());
                 else
                     n = std::snprintf(buf, sizeof buf, "OK uses=%u stacks=%zu peak=%u depth=%u growth_inner=%u replay=%u "
-                                                        "switches=%u initdtor=%u threads=%u\n",
+                                                        "switches=%u initdtor=%u threads=%u inner=%u\n",
                                       c.uses, c.stacks_seen.size(), c.peak_holding, c.depth_max, c.growth_inner,
-                                      c.n_replay, c.n_switches, c.n_init_dtor_before_use, nthreads);
+                                      c.n_replay, c.n_switches, c.n_init_dtor_before_use, nthreads, c.n_inner_switches);
                 (void)!write(fds[1], buf, size_t(n));
                 if (f.failed)
                     _exit(0); // never run destructors over a state that already violated the property
@@ -1018,10 +1242,13 @@ namespace
             auto pos = out.find("LEAK ");
             if (pos != std::string::npos)
                 f("leak-at-exit", "at program exit the library reported: " + out.substr(pos, 120));
-            unsigned uses = 0, peak = 0, depth = 0, growth = 0, replay = 0, sw = 0, initd = 0, thr = 0;
+            unsigned uses = 0, peak = 0, depth = 0, growth = 0, replay = 0, sw = 0, initd = 0, thr = 0, inner = 0;
             size_t   stacks = 0;
-            std::sscanf(out.c_str(), "OK uses=%u stacks=%zu peak=%u depth=%u growth_inner=%u replay=%u switches=%u initdtor=%u threads=%u",
-                        &uses, &stacks, &peak, &depth, &growth, &replay, &sw, &initd, &thr);
+            std::sscanf(out.c_str(), "OK uses=%u stacks=%zu peak=%u depth=%u growth_inner=%u replay=%u switches=%u initdtor=%u threads=%u inner=%u",
+                        &uses, &stacks, &peak, &depth, &growth, &replay, &sw, &initd, &thr, &inner);
+            if (inner)
+                ci.classes.insert("switch-inside-list-operation");
+            ci.counters["switches_inside_list_operations"] += inner;
             if (nthreads == 1)
                 ci.nontrivial = depth >= 3 && growth >= 1;
             else
@@ -1063,7 +1290,7 @@ namespace
             {
                 out.max_ops = 60;
                 out.kinds   = {{tnames[0], 4}, {tnames[1], 3}, {tnames[2], 4}, {tnames[3], 8}, {tnames[4], 10},
-                               {tnames[5], 7}, {tnames[6], 3}, {tnames[7], 3}, {tnames[8], 1}, {tnames[9], 1}};
+                               {tnames[5], 7}, {tnames[6], 3}, {tnames[7], 3}, {tnames[8], 1}, {tnames[9], 1}, {tnames[10], 10}};
                 out.rule    = "single thread: nesting depth >= 3 with block growth inside an inner scope; threads: >= 2 "
                               "stack uses with >= 3 context switches and overlapping holders, an initializer destroyed "
                               "before a later use, or sequential threads (reuse)";
